@@ -53,7 +53,7 @@ fn create_pair(st: &mut State, family: usize, mask: u32, cont: usize, ctxsel: us
             side,
             seed,
             ctxsel,
-            arc_ctx: if side == ERASED && ctxsel == 1 { st.ctx_handle.clone() } else { None },
+            arc_ctx: if side == ERASED && is_arc(ctxsel) { st.ctx_handle.clone() } else { None },
             erased_arena: &st.erased_arena,
             twin_arena: &st.twin_arena,
         };
@@ -66,6 +66,10 @@ fn create_pair(st: &mut State, family: usize, mask: u32, cont: usize, ctxsel: us
     let a = mk(ERASED, st)?;
     let b = mk(TWIN, st)?;
     Some(Pair { a: a.obj, b: b.obj, ctxsel, family, mask, cont, is_child: false })
+}
+
+fn is_arc(ctxsel: usize) -> bool {
+    ctxsel == 1 || ctxsel == 3
 }
 
 fn method_of(menu: &[Meth], mi: usize) -> Option<Meth> {
@@ -112,7 +116,7 @@ fn check_world(st: &mut State, when: &str, la: &[Entry]) -> VResult {
     }
     vcheck!(w.unload_inside_wrapper.load(Ordering::SeqCst) == 0, "ctx.released_inside_call", "consume", "{}: the context was released while control was still inside the plugin's wrapper function (cglue_wrapped_*)", when);
     // known finding: each borrowed wrapped return on a context-carrying object leaks one clone
-    let holders_arc = st.ctx_handle.is_some() as i64 + st.slots.iter().flatten().filter(|p| p.ctxsel == 1).count() as i64;
+    let holders_arc = st.ctx_handle.is_some() as i64 + st.slots.iter().flatten().filter(|p| is_arc(p.ctxsel)).count() as i64;
     let holders_plain = st.slots.iter().flatten().filter(|p| p.ctxsel == 2).count() as i64;
     let _ = la;
     let strong = st.ctx_weak.strong_count() as i64;
@@ -144,7 +148,7 @@ fn check_world(st: &mut State, when: &str, la: &[Entry]) -> VResult {
 }
 
 fn note_findings(st: &State, ctx: &mut RunCtx) {
-    let holders_arc = st.ctx_handle.is_some() as i64 + st.slots.iter().flatten().filter(|p| p.ctxsel == 1).count() as i64;
+    let holders_arc = st.ctx_handle.is_some() as i64 + st.slots.iter().flatten().filter(|p| is_arc(p.ctxsel)).count() as i64;
     if st.leaked_arc > 0 && st.ctx_weak.strong_count() as i64 == holders_arc + st.leaked_arc {
         ctx.finding("ctx.clone_leak", "borrowed wrapped return (wrap_with_obj_ref|obj_mut|group_ref|group_mut), reference-counted context");
     }
@@ -157,7 +161,7 @@ fn note_findings(st: &State, ctx: &mut RunCtx) {
 fn count_borrowed(st: &mut State, ctxsel: usize, la: &[Entry]) {
     let n = la.iter().filter(|e| BORROWED_RETURNS.contains(&e.method)).count() as i64;
     match ctxsel {
-        1 => st.leaked_arc += n,
+        1 | 3 => st.leaked_arc += n,
         2 => st.leaked_plain += n,
         _ => {}
     }
@@ -216,8 +220,8 @@ fn apply(st: &mut State, step: &Step, cell: &mut Option<u64>) -> Result<StepOut,
                 let g = family - factory::N_SINGLE;
                 (step.arg(2).rem_euclid(1 << GROUP_OPT[g]) as u32, step.arg(3).rem_euclid(GROUP_NCONT[g] as i64) as usize)
             };
-            let mut ctxsel = step.arg(4).rem_euclid(3) as usize;
-            if ctxsel == 1 && st.ctx_handle.is_none() {
+            let mut ctxsel = step.arg(4).rem_euclid(4) as usize;
+            if is_arc(ctxsel) && st.ctx_handle.is_none() {
                 ctxsel = 0; // the library is gone: nothing can be created from it any more
             }
             let pair = create_pair(st, family, mask, cont, ctxsel);
@@ -230,7 +234,7 @@ fn apply(st: &mut State, step: &Step, cell: &mut Option<u64>) -> Result<StepOut,
             }
             counts.push(format!("create.{}", family_name(family)));
             counts.push(format!("container.{}", ["box", "mut", "ref", "arcsome"][cont]));
-            counts.push(format!("context.{}", ["none", "arc", "plain"][ctxsel]));
+            counts.push(format!("context.{}", ["none", "arc", "plain", "arc_opaque"][ctxsel]));
             st.slots[s] = Some(pair);
             Ok(StepOut { line: format!("Create slot={} {} mask={:#b} cont={} ctx={}", s, family_name(family), mask, cont, ctxsel), effective: true, counts })
         }
@@ -369,8 +373,8 @@ fn apply(st: &mut State, step: &Step, cell: &mut Option<u64>) -> Result<StepOut,
             let Pair { a, b, ctxsel, .. } = pair;
             let what = format!("{}::{}", a.kind(), meth.name);
             // is this object the last holder of the context? then the unload happens in this call
-            let holders_arc = st.ctx_handle.is_some() as i64 + st.slots.iter().flatten().filter(|p| p.ctxsel == 1).count() as i64 + (ctxsel == 1) as i64;
-            if ctxsel == 1 && holders_arc == 1 && st.leaked_arc == 0 {
+            let holders_arc = st.ctx_handle.is_some() as i64 + st.slots.iter().flatten().filter(|p| is_arc(p.ctxsel)).count() as i64 + is_arc(ctxsel) as i64;
+            if is_arc(ctxsel) && holders_arc == 1 && st.leaked_arc == 0 {
                 counts.push("probe.consumed_object_is_last_context_holder".into());
                 w.check_backtrace.store(true, Ordering::SeqCst);
             }
@@ -403,7 +407,7 @@ fn apply(st: &mut State, step: &Step, cell: &mut Option<u64>) -> Result<StepOut,
         }
         "DropCtx" => match st.ctx_handle.take() {
             Some(h) => {
-                let holders = st.slots.iter().flatten().filter(|p| p.ctxsel == 1).count();
+                let holders = st.slots.iter().flatten().filter(|p| is_arc(p.ctxsel)).count();
                 drop(h);
                 counts.push(if holders > 0 { "fault.harness_handle_dropped_while_objects_hold_context".into() } else { "probe.unload_by_harness_handle".into() });
                 Ok(StepOut { line: "DropCtx".into(), effective: true, counts })
@@ -496,8 +500,8 @@ impl Engine for ObjEngine {
                     let fam = *rng.pick(&fam_pool);
                     let ctxsel = match ctx_mode {
                         1 => 0,
-                        2 => 1,
-                        _ => rng.range(0, 2),
+                        2 => *rng.pick(&[1, 3]),
+                        _ => rng.range(0, 3),
                     };
                     p.push(t, op, &[s0, fam, rng.range(0, 15), rng.range(0, 3), ctxsel]);
                 }
